@@ -270,12 +270,37 @@ pub fn run(ctx: &Ctx) -> i32 {
     });
     let mut acc = acc;
     acc.merge(big);
+    // outputs that are EXACTLY 8 KiB, 64 KiB, 128 KiB, 1 MiB long (and one byte less or more), every target
+    let mut exact = vec![];
+    for to in ALL {
+        for len in [8192usize, 65536, 131072, 1 << 20] {
+            for d in [-1i64, 0, 1] {
+                exact.push((to, (len as i64 + d) as usize));
+            }
+        }
+    }
+    let ex = crate::par::run(exact.len(), 1, |i, acc| {
+        let (to, len) = exact[i];
+        let Some(input) = crate::gen::exact_output_doc(to, len) else { return };
+        let clean = run_slice(&input, Some(Fmt::Json), to);
+        if !clean.verdict.is_ok() || clean.out.len() != len {
+            return;
+        }
+        acc.count("outputs_of_an_exact_length");
+        for m in [1usize << 30, 4096, 65536, 65535] {
+            short_writes(&input, Some(Fmt::Json), to, len as u64, m, &clean.out, acc);
+        }
+        for k in [len - 1, len - 2, len / 2] {
+            writer_fault(&input, Some(Fmt::Json), to, k, FaultStyle::ShortThenFail, None, &clean.out, acc);
+        }
+    });
+    acc.merge(ex);
     let n_second = ctx.size(3000, 100000);
     let second = crate::par::run(n_second, 16, |i, acc| toml_second_call_after_fault(seed, i, acc));
     acc.merge(second);
-    let rule = format!("{} generated valid inputs (1-3 documents, each format in turn, every third YAML input re-encoded as UTF-16/32 with characters outside the BMP, <= 2 KiB plus a stratified sample above) x [explicit, detected] x rotating target, restricted to combinations whose fault-free run succeeds; for each: the reader fails and keeps failing after k bytes for EVERY k in 0..=len under rotating schedules [all, one, random], error kinds and error representations (custom payload, raw OS error, bare kind); the writer fails after accepting k bytes for EVERY k below the fault-free length in three styles (short accept then fail / reject the crossing write / accept nothing more: Ok(0)), from slice and reader input; 4 short-write patterns; {} heavy documents (thousands of entries, 64 KiB strings) to every target incl. TOML under 6 short-write patterns (at most 1000 .. 1 MiB bytes accepted per call) and 12 sampled writer faults; pairs of calls on one TOML translator whose first call meets one failing write (hard or transient kind): the second call may not append; flush faults; distinct non-trivial = distinct (input, from, to) combinations", n, n_big);
+    let rule = format!("{} generated valid inputs (1-3 documents, each format in turn, every third YAML input re-encoded as UTF-16/32 with characters outside the BMP, <= 2 KiB plus a stratified sample above) x [explicit, detected] x rotating target, restricted to combinations whose fault-free run succeeds; for each: the reader fails and keeps failing after k bytes for EVERY k in 0..=len under rotating schedules [all, one, random], error kinds and error representations (custom payload, raw OS error, bare kind); the writer fails after accepting k bytes for EVERY k below the fault-free length in three styles (short accept then fail / reject the crossing write / accept nothing more: Ok(0)), from slice and reader input; 4 short-write patterns; {} heavy documents (thousands of entries, 64 KiB strings) to every target incl. TOML under 6 short-write patterns (at most 1000 .. 1 MiB bytes accepted per call) and 12 sampled writer faults; outputs of exactly 8 KiB / 64 KiB / 128 KiB / 1 MiB (and one byte less or more) to every target, whole and in pieces; pairs of calls on one TOML translator whose first call meets one failing write (hard or transient kind): the second call may not append; flush faults; distinct non-trivial = distinct (input, from, to) combinations", n, n_big);
     ev::finish(
-        Finish { ctx, level: "fault_enumeration", rule, assumptions: vec!["for YAML output one trailing '---' header after the last complete document is allowed (the writer emits it before pulling the next document)".into(), "writer-fault error text is judged in C11, not here".into()], extra: serde_json::Map::new(), exhaustive: false, min_distinct: 200, must_reach: vec![("reader_faults_delivered".into(), 10000), ("writer_fault_points".into(), 10000), ("short_write_runs".into(), 500), ("flush_fault_runs".into(), 4), ("inputs_utf16_32_with_astral_characters".into(), 20), ("writer_fault_style_ZeroLen".into(), 2000), ("large_output_cases".into(), 12), ("toml_second_call_after_a_faulted_first_call".into(), 1000)] },
+        Finish { ctx, level: "fault_enumeration", rule, assumptions: vec!["for YAML output one trailing '---' header after the last complete document is allowed (the writer emits it before pulling the next document)".into(), "writer-fault error text is judged in C11, not here".into()], extra: serde_json::Map::new(), exhaustive: false, min_distinct: 200, must_reach: vec![("reader_faults_delivered".into(), 10000), ("writer_fault_points".into(), 10000), ("short_write_runs".into(), 500), ("flush_fault_runs".into(), 4), ("inputs_utf16_32_with_astral_characters".into(), 20), ("writer_fault_style_ZeroLen".into(), 2000), ("large_output_cases".into(), 12), ("toml_second_call_after_a_faulted_first_call".into(), 1000), ("outputs_of_an_exact_length".into(), 30)] },
         acc,
     )
 }
